@@ -1,3 +1,4 @@
 package block
 
 var zzC02Len = 3
+var zzC02SymbolicDA = true
